@@ -40,6 +40,10 @@ func guardDocs() []document.Document {
 		}
 
 		if extra {
+			// members whose value is null inside a key and inside a service (they are part of the key / service)
+			d["publicKey"].([]interface{})[0].(map[string]interface{})["publicKeyJwk"].(map[string]interface{})["ext"] = nil
+			d["service"].([]interface{})[0].(map[string]interface{})["routingKeys"] = nil
+			d["service"].([]interface{})[0].(map[string]interface{})["nested"] = map[string]interface{}{"priority": nil}
 			d["publicKeyX"] = []interface{}{"x"}
 			d["services"] = []interface{}{"y"}
 			d["public~Key"] = 1
@@ -176,6 +180,30 @@ func guardReplay(args []string) {
 
 			if verr == nil {
 				accepted++
+			}
+
+			// the same json patch as the LAST patch of a list that removes a key and adds a service first: what those
+			// two did to keys and services stands (the json patch works on the document as it is by then)
+			if verr == nil && panicked == "" && aerr == nil && len(doc) > 0 {
+				var pre []patch.Patch
+
+				praw, _ := json.Marshal([]interface{}{
+					map[string]interface{}{"action": "remove-public-keys", "ids": []interface{}{"k1"}},
+					map[string]interface{}{"action": "add-services", "services": []interface{}{map[string]interface{}{"id": "late", "type": "T", "serviceEndpoint": "https://late.example/"}}}})
+				_ = json.Unmarshal(praw, &pre)
+
+				want, e1 := composer.ApplyPatches(doc, pre)
+				got, e2 := composer.ApplyPatches(doc, append(append([]patch.Patch(nil), pre...), p))
+
+				if e1 == nil && e2 == nil && (digestJSON(got["publicKey"]) != digestJSON(want["publicKey"]) || digestJSON(got["service"]) != digestJSON(want["service"])) {
+					col.report(mismatch{Kind: "protected-altered", Key: guardKey("protected-altered-in-list", c.Ops), Case: c,
+						Detail:   "after [remove-public-keys, add-services], the json patch changes keys / services back or away",
+						Expected: map[string]interface{}{"publicKey": want["publicKey"], "service": want["service"]},
+						Actual:   map[string]interface{}{"publicKey": got["publicKey"], "service": got["service"]},
+						Concrete: map[string]interface{}{"patch": json.RawMessage(raw), "document": di}, Replay: rp})
+
+					continue
+				}
 			}
 
 			if panicked != "" || aerr != nil {
